@@ -111,6 +111,31 @@ Fixpoint trapz (ws vs : list K) : K :=
   | _, _ => f0
   end.
 
+(* ---- Spectrum.sample(wave, method='linear', fill_value=0, waveunit) ----
+   a copy is converted to the requested wave unit with Spectrum.to (when the unit string is the
+   spectrum's own the copy is skipped: the same values, the factor being 1), then
+   scipy.interpolate.interp1d(kind='linear', bounds_error=False, fill_value=0) is evaluated:
+   piecewise linear between the samples, 0 outside [wave[0], wave[-1]].  [leb] is the order. *)
+Variable leb : K -> K -> bool.
+Fixpoint interp_lin (ws vs : list K) (x : K) : option K :=
+  match ws, vs with
+  | w0 :: ws', v0 :: vs' =>
+      match ws', vs' with
+      | w1 :: _, v1 :: _ =>
+          if leb w0 x && leb x w1 then Some (v0 + (v1 - v0) / (w1 - w0) * (x - w0))%F
+          else interp_lin ws' vs' x
+      | _, _ => None
+      end
+  | _, _ => None
+  end.
+Definition sample_at (ws vs : list K) (x : K) : K :=
+  match interp_lin ws vs x with Some y => y | None => f0 end.
+Definition sample (s : spectrum) (pts : list K) (n : uname) : result (list K) :=
+  rbind (to1 s n) (fun s' => Ok (map (sample_at (s_wave s') (s_value s')) pts)).
+(* sampling at the converted grid itself *)
+Definition sample_grid (s : spectrum) (n : uname) : result (list K) :=
+  rbind (to1 s n) (fun s' => Ok (map (sample_at (s_wave s') (s_value s')) (s_wave s'))).
+
 (* ---- Planck's law ---- *)
 Definition pow5 (x : K) : K := (x * x * x * x * x)%F.
 (* coef*H*C**2/(wave**5*(np.exp(H*C/(wave*K*temp))-1)), wave in metres: the SI function *)
